@@ -141,7 +141,9 @@ fn main() {
         "C08" => props::c08::run(&ctx),
         "C09" => props::c09::run(&ctx),
         "C12" => props::c12::run(&ctx),
+        "C15" => props::c15::run(&ctx),
         "C16" => props::c16::run(&ctx),
+        "C17" => props::c17::run(&ctx),
         "C13" => props::c13::run(&ctx),
         _ => {
             eprintln!("unknown property {}", prop);
